@@ -120,8 +120,8 @@ Proof. intros i [M|M]; unfold model, model_gen, ctor_ok; cbn; rewrite M; auto. Q
 
 (* 6. no_replay_while_valid. Cache enabled, 0 <= skew <= max_skew (= 4611686017 s, so that
       (2*skew+1) s fits a Duration), every cache state [st] (any prefix history). Let request ri
-      be verified (step i), then any requests [mid], then request rj presenting the same header
-      list, with a non-decreasing clock over ri, mid, rj and clocks in [0, 2^62 s). If rj's
+      be verified (step i), then any requests [mid], then request rj presenting the same proof
+      ([same_proof]: equal kid, ts, nonce and MAC bytes - in whatever wire spelling), with a non-decreasing clock over ri, mid, rj and clocks in [0, 2^62 s). If rj's
       timestamp would still be accepted at rj's instant and FEWER THAN [eff_cap c] proofs were
       verified (= admitted to the cache) by the requests strictly in between, rj's verification
       fails: refused with proxy_required in require mode, verified=false in allow mode. *)
@@ -130,13 +130,23 @@ Theorem no_replay_while_valid : forall (hmac : bytes -> bytes -> bytes) (c : con
   c_nocache c = false -> 0 <= c_skew c <= max_skew ->
   monotone1 (ri :: mid ++ [rj]) = true -> sane_req ri = true -> sane_req rj = true ->
   fst (fst (step hmac ttl_ns c st (norm ri))) = VOk l k ->
-  r_hdrs rj = r_hdrs ri ->
+  same_proof (r_hdrs ri) (r_hdrs rj) = true ->
   ts_acceptable c (unix_s (r_tv rj)) (r_hdrs rj) = true ->
   let st_i := snd (step hmac ttl_ns c st (norm ri)) in
   count_ok (run hmac ttl_ns c st_i (map norm mid)) < eff_cap c ->
   exists reason,
     fst (fst (step hmac ttl_ns c (exec hmac ttl_ns c st_i (map norm mid)) (norm rj))) = VErr reason.
 Proof. exact no_replay1_l. Qed.
+
+(* 6'. The identity of a proof in 6 is (kid, ts, nonce, MAC BYTES), not its wire text: rj may
+       present ANY spelling of the proof ri presented (the 43-character base64url MAC field has two
+       spare bits: four spellings of its last character decode to the same MAC and all verify).
+       The byte-identical re-presentation is the special case: *)
+Theorem identical_presentation_is_same_proof : forall (hmac : bytes -> bytes -> bytes) (ttlf : Z -> Z)
+                                                      (c : config) (st : cache) (ri rj : req) (l k : bytes),
+  fst (fst (step hmac ttlf c st ri)) = VOk l k -> r_hdrs rj = r_hdrs ri ->
+  same_proof (r_hdrs ri) (r_hdrs rj) = true.
+Proof. exact identical_same_proof_l. Qed.
 
 (* the TTL that makes 6 true: proofReplayTTL(skew) = (2*skew+1) s, from the regenerated constants *)
 Theorem ttl_covers_window : forall skew, 0 <= skew <= max_skew -> ttl_ns skew = (2 * skew + 1) * ns_per_s.
@@ -209,6 +219,19 @@ Example no_replay_premises_satisfiable :
   /\ fst (fst (step hm ttl_ns w_cfg (exec hm ttl_ns w_cfg (snd (step hm ttl_ns w_cfg [] (norm ri))) (map norm mid)) (norm rj)))
      = VErr RReplayed.
 Proof. vm_compute. repeat split; auto; discriminate. Qed.
+
+(* the three other spellings of the witness proof (last MAC character 8 -> 9, -, _) are the same
+   proof, verify, and are refused as replays by the nonce-keyed cache *)
+Example respelled_replays_refused :
+  let hm := hm_lookup w_hm in
+  let alt (ch : N) := {| r_tv := T0 + s 1; r_tc := 0;
+                         r_hdrs := [firstn 82 w_tok ++ [ch]]; r_inner := IOk [] [] true |} in
+  forallb (fun ch => same_proof [w_tok] (r_hdrs (alt ch))
+                     && negb (beqb w_tok (firstn 82 w_tok ++ [ch]))
+                     && valid_proof hm w_cfg (unix_s (T0 + s 1)) (r_hdrs (alt ch))) [57; 45; 95]%N = true
+  /\ map fst (run hm ttl_ns w_cfg [] (map norm [w_req T0 T0; alt 57%N; alt 45%N; alt 95%N]))
+     = [VOk (str "px1") (str "k1"); VErr RReplayed; VErr RReplayed; VErr RReplayed].
+Proof. vm_compute. auto. Qed.
 
 (* a toy MAC under which the 43-A mac field verifies for every tuple: enough to exhibit cache facts *)
 Definition toy (_ _ : bytes) : bytes := repeat 0%N 32.
